@@ -82,13 +82,14 @@ class C01(Prop):
                     Layer("FA(3,2,<=2)/adversarial-names", lambda: G.fa_cases(3, 2, 0, 2), rep=None, policies=adv),
                     Layer("FA(2,2,<=3)/adversarial-names", lambda: G.fa_cases(2, 2, 0, 3), rep=None, policies=adv)]
         few = ["natural@int", "natural@str", "1@int", "2@str", "s%d@int" % seed]
+        adv4 = ["natural@mixed", "natural@merged", "natural@reserved", "natural@quoted", "1@merged"]
         return [Layer("FA(2,2,<=12)", lambda: G.fa_cases(2, 2, 0, 12), rep=G.is_rep_states),
                 Layer("FA(3,2,<=3)", lambda: G.fa_cases(3, 2, 0, 3), rep=G.is_rep_states),
                 Layer("FA(3,2,4)", lambda: G.fa_cases(3, 2, 4, 4), rep=G.is_rep, policies=few),
-                Layer("FA(3,1,<=6)", lambda: G.fa_cases(3, 1, 0, 6), rep=G.is_rep, policies=few),
+                Layer("FA(3,1,<=6)", lambda: G.fa_cases(3, 1, 0, 6), rep=G.is_rep, policies=few[:2]),
                 Layer("FA(4,1,<=3)", lambda: G.fa_cases(4, 1, 0, 3), rep=G.is_rep, policies=few[:3]),
-                Layer("cycle DFAs n=5 (partial b)", lambda: cycle5(1), policies=["natural@int", "1@str", "2@int"]),
-                Layer("FA(3,2,<=3)/adversarial-names", lambda: G.fa_cases(3, 2, 0, 3), rep=None, policies=adv),
+                Layer("cycle DFAs n=5 (partial b)", lambda: cycle5(1), policies=["natural@int", "1@str"]),
+                Layer("FA(3,2,<=3)/adversarial-names", lambda: G.fa_cases(3, 2, 0, 3), rep=None, policies=adv4),
                 Layer("FA(2,2,<=12)/adversarial-names", lambda: G.fa_cases(2, 2, 0, 12), rep=None, policies=adv)]
 
     def default_policies(self, tier, seed):
